@@ -8,6 +8,11 @@ description (class, grid, labels, dtype), the data shape, the write mode and whe
 writing session is open.  After every operation every storage of the population is read
 completely and compared with its model; source fields and fields read back earlier are
 compared with the harness' own copies (so writes that leak in either direction are seen).
+The fields of one history have different data types (int64, float64, complex128): a frame
+keeps the dtype and the values it had when it was appended (``storage.data[i]`` is compared
+exactly), a field read back is the frame written into a copy of the template set by the last
+successful ``start_writing`` (class, grid, labels and dtype of that template), with values
+equal to the frame whenever the frame's dtype casts safely to the template's.
 
 ``tracker_driven_storage``: one or two short ``solve`` calls (``backend='numpy'``) writing
 through ``storage.tracker(...)`` into one storage; a callback tracker with the same
@@ -38,10 +43,28 @@ PROPERTY = "C20"
 RULE = ("histories over a population of memory storages (main + derived); distinct = whole "
         "history (init, operation list); tracker sub-check: distinct = whole case")
 ASSUMPTIONS = [
-    "all fields of one history have one dtype (float64 or complex128): a storage keeps a single "
-    "template field, and reading a complex frame through a real template discards the imaginary "
-    "part with NumPy's ComplexWarning - fields 'like the example given to start_writing' is "
-    "taken as the documented precondition of append",
+    "the fields of one history have different dtypes (int64 for single fields, float64, "
+    "complex128; small integer values, so int -> float -> complex casts are exact). A stored frame "
+    "keeps the dtype and values it had when appended, whatever was stored before (storage.data[i] "
+    "is compared exactly in every state); a field read (storage[i], slices, iteration, items(), "
+    "view_field, and therefore copy/apply) is the frame assigned into a copy of the template of "
+    "the last successful start_writing, so it has that template's dtype. On the unchanged tree "
+    "this round-trips exactly whenever the frame's dtype casts safely to the template's dtype "
+    "(same dtype; narrower field appended in a wider session; later session - after clear(), "
+    "clear(clear_data_shape=True), in 'truncate' mode or on top of the old frames in 'append' "
+    "mode - whose template is wider): these reads are held to the stored values",
+    "what stays excluded because it loses information on the unchanged tree: a frame read through "
+    "a NARROWER template (complex frame/real template discards the imaginary part with NumPy's "
+    "ComplexWarning, float frame/int template truncates). It arises from a wider field appended "
+    "inside a session started with a narrower one (fields 'like the example given to "
+    "start_writing' is taken as the documented precondition of append), from an 'append'-mode "
+    "session with a narrower template on top of wider frames, and from apply(f + t) on an int "
+    "storage with mixed int/float time stamps. These are generated rarely (the storage accepts "
+    "them); for such a frame only storage.data[i], times, class, grid, labels and dtype of the read "
+    "are asserted, not the values of the read, and copy/apply/view_field are not generated for a "
+    "storage while it holds such a frame",
+    "collections of int fields are not generated (FieldCollection converts integer members to "
+    "float64 unless a dtype is forced); the tracker sub-check uses one dtype per case",
     "append is only generated inside a writing session (between a successful start_writing and "
     "end_writing) or on a storage whose data shape is unset (documented rejection); append on a "
     "closed or read-only storage is not documented either way",
@@ -69,8 +92,16 @@ ANY = "<any>"
 # =====================================================================================
 # plain-data field specifications
 # =====================================================================================
+DTYPES = {"f8": "float64", "c16": "complex128", "i8": "int64"}
+
+
 def np_dtype(code):
-    return np.dtype("complex128" if code == "c16" else "float64")
+    return np.dtype(DTYPES[code])
+
+
+def exact_cast(src, dst):
+    """values of dtype ``src`` survive the assignment into an array of dtype ``dst``"""
+    return bool(np.can_cast(src, dst, "safe"))
 
 
 def spec_members(spec):
@@ -129,6 +160,9 @@ class Template:
     def with_labels(self, label, member_label):
         mem = None if self.members is None else [dict(m, label=member_label) for m in self.members]
         return Template(self.cls, self.gidx, label, self.dtype, mem, self.shape)
+
+    def with_dtype(self, dtype):
+        return Template(self.cls, self.gidx, self.label, np.dtype(dtype), self.members, self.shape)
 
 
 def grid_signature(gspec):
@@ -228,7 +262,18 @@ def init_cases(draw):
     route = draw(st.sampled_from(["plain", "plain", "plain", "from_fields", "from_fields", "context",
                                   "raw_attrs", "raw_guess"]))
     mode = draw(st.sampled_from(MODES[:3] * 4 + (["readonly"] if route != "context" else [])))
-    init = {"grids": [g0, g1], "dtype": draw(st.sampled_from(["f8", "f8", "c16"])), "pool": pool,
+    # data types: a base dtype; in most histories about half of the pool deviates from it
+    # (init["dtype"] is the dtype of pool[0] and of pool entries without a "dtype" key)
+    base = draw(st.sampled_from(["f8", "f8", "f8", "c16", "i8", "i8"]))
+    mixed = draw(st.integers(0, 9)) < 7
+    for spec in pool:
+        dt = base
+        if mixed and draw(st.booleans()):
+            dt = draw(st.sampled_from(["f8", "c16", "c16", "i8"]))
+        if spec["kind"] == "coll" and dt == "i8":
+            dt = "f8"  # FieldCollection turns integer members into float64
+        spec["dtype"] = dt
+    init = {"grids": [g0, g1], "dtype": pool[0]["dtype"], "pool": pool,
             "route": route, "mode": mode}
     if route in ("from_fields", "raw_attrs", "raw_guess"):
         n = draw(st.integers(1 if route != "from_fields" else 0, 4))
